@@ -94,13 +94,27 @@ Section Run.
     | other => other
     end.
 
+  (* per step only the top-level slots whose observed value changed are reported (with all marks): the literals of the
+     correspondence stay small; the first observation of a case is the whole configuration *)
+  Definition diff_snap (a b : pyval) : pyval :=
+    match a, b with
+    | PTuple [PDict _ da; _; _], PTuple [PDict t db; df; dy] =>
+        PTuple [PDict t (filter (fun kv => negb (match assoc pyval_eqb (fst kv) da with
+                                                 | Some v => pyval_eqb v (snd kv)
+                                                 | None => false
+                                                 end)) db); df; dy]
+    | _, _ => b
+    end.
+  Definition cf_step_obs (root root' : cfg) (o : oc) : pyval :=
+    PTuple [o_oc o; diff_snap (o_cfg' root) (o_cfg' root'); same_ids (ids_cfg [] root) (ids_cfg [] root')].
+
   Fixpoint cf_run_ops (ops : list (list pstep * cop)) (w : world) (root : cfg) (dynamic : bool) (vs : list N) (fs : list (str * fnode))
     : list pyval :=
     match ops with
     | [] => []
     | (ps, o) :: r =>
         let '(w1, root', oc1) := at_path ps w [] root dynamic vs fs o in
-        step_obs root root' oc1 :: cf_run_ops r w1 root' dynamic vs fs
+        cf_step_obs root root' oc1 :: cf_run_ops r w1 root' dynamic vs fs
     end.
 End Run.
 
